@@ -256,6 +256,7 @@ type inst struct {
 	hist       []int
 
 	level       *levelMark // E1 search only
+	weight      int        // 0 for E1 instances, 100 for the one-shot enumerations
 	skipOracles bool
 
 	// tie mode: nil => rotation by persisted ServerIdx + call index; else permutation per shard index
@@ -360,7 +361,8 @@ func (in *inst) violate(key, msg string) {
 		names[i] = in.ops[o].name
 		fmt.Fprintf(&sb, "%03d,", o)
 	}
-	agg.add(key, "shardmap-seq", msg, map[string]any{"config": in.spec, "ops": names, "indices": append([]int{}, in.hist...)}, len(in.hist), sb.String())
+	// histories of the E1 search (replayable with --replay) are preferred as the reported example
+	agg.add(key, "shardmap-seq", msg, map[string]any{"config": in.spec, "ops": names, "indices": append([]int{}, in.hist...)}, len(in.hist)+in.weight, sb.String())
 }
 
 func (in *inst) Step(op int) (bool, *ev.Violation) {
@@ -962,6 +964,7 @@ func bigNamespaces(run *ev.Run, counts []uint32, withClientUpTo uint32) {
 	for _, c := range counts {
 		in := newInst(fmt.Sprintf("big-namespace shards=%d", c), []opDef{{kind: kAddNS, ns: "n1", count: c, rf: 1, name: fmt.Sprintf("AddNamespace(n1,shards=%d,rf=1)", c)}}, 3)
 		in.hist = []int{0}
+		in.weight = 100
 		in.ns["n1"] = nsParam{c, 1}
 		added, _, p := in.vc.VerifConfigChanged(in.buildConfig())
 		if p != nil {
@@ -997,7 +1000,7 @@ func standalone(run *ev.Run, maxN uint32) {
 		resp, err := server.VerifC18Register(d, constant.DefaultNamespace)
 		run.Add("evaluations", 1)
 		run.Add("standalone_dispatchers", 1)
-		tmp := &inst{spec: fmt.Sprintf("standalone shards=%d", n), ops: []opDef{{name: fmt.Sprintf("NewStandaloneShardAssignmentDispatcher(%d)", n)}}, hist: []int{0}}
+		tmp := &inst{weight: 100, spec: fmt.Sprintf("standalone shards=%d", n), ops: []opDef{{name: fmt.Sprintf("NewStandaloneShardAssignmentDispatcher(%d)", n)}}, hist: []int{0}}
 		if err != nil {
 			tmp.violate("standalone-register-failed", err.Error())
 			_ = d.Close()
@@ -1165,7 +1168,7 @@ func tieEnumeration(run *ev.Run, maxCount uint32, slotCap int, deadline time.Tim
 
 func newInstMask(spec string, ops []opDef, mask int) *inst {
 	// like newInst but with an arbitrary initial server subset
-	in := &inst{spec: spec, ops: ops, ns: map[string]nsParam{}, issued: map[int64]issuedInfo{}, selFailed: map[string]bool{},
+	in := &inst{weight: 100, spec: spec, ops: ops, ns: map[string]nsParam{}, issued: map[int64]issuedInfo{}, selFailed: map[string]bool{},
 		lastPub: map[string]string{}, lastPubB: map[string]string{}, inCfgPrev: map[string]bool{},
 		cA: map[string]*oxia.VerifC18ShardManager{}, cB: map[string]*oxia.VerifC18ShardManager{}}
 	for i := 0; i < nServers; i++ {
